@@ -30,6 +30,7 @@ import Pandora.Proofs.C20Scen
 import Pandora.Proofs.C20Feed
 import Pandora.Proofs.C20R4
 import Pandora.Proofs.C20R6
+import Pandora.Proofs.C20R6Expand
 import Pandora.Bridge.C20
 import Pandora.Gen.GrpcStatus
 import Pandora.Gen.ChosenCases
@@ -837,5 +838,67 @@ theorem C20_chosen_cases (tag : String) (chosen : List String) :
 
 example : isChosen "b" ["a", "b"] = true ∧ isChosen "bb" ["a", "b"] = false ∧ isChosen "x" [] = true ∧
     Gen.ChosenCases.isChosenCase "bb" ["a", "b"] = false := by decide
+
+/-! ### round 6: a scenario's request list -/
+
+open Pandora.Proofs.C20R6Expand in
+/-- **C20_expand**: how a scenario's `requests` list becomes the steps of a shot (`convertScenarioToAmmo`; until round 6
+this expansion was done by the Lean driver, outside the model). For every list of entries `name`, `name(count)`,
+`name(count, sleep)`, `sleep(ms)` and every call registry: WHENEVER the provider accepts the list, the steps are — in
+order — every entry that is not a pause, `count` times (`expandSpec`: pauses and the sleep of the three-part form add
+time only, a count of 0 or below adds nothing), at most `MaxScenarioRequests` of them, each naming a call of the
+registry. The loop and the constant are regenerated (`Bridge.C20.scenarioExpandLoop_eq`, `maxScenarioRequests_eq`). -/
+theorem C20_expand (known : String → Bool) (reqs : List Shoot) (out : List (String × Int))
+    (h : expandReqs known reqs [] = .ok out) :
+    out.map (·.1) = expandSpec reqs ∧ out.length ≤ maxScenarioRequests ∧ (∀ n ∈ expandSpec reqs, known n = true) ∧
+    Gen.GrpcGun.maxScenarioRequests = maxScenarioRequests := by
+  obtain ⟨h1, h2, h3⟩ := expandReqs_ok known reqs [] out h (by simp)
+  exact ⟨by simpa using h1, h2, h3, Bridge.C20.maxScenarioRequests_eq⟩
+
+/-- non-vacuity: an accepted list (count, three-part form, pauses, a count of 0) and the three ways a list is rejected -/
+example : (match expandReqs (fun _ => true)
+      [{ name := "h", cnt := 2 }, { name := "sleep", cnt := 5 }, { name := "g", cnt := 1, sleep := 7 }, { name := "h", cnt := 0 }] [] with
+    | .ok out => out == [("h", 0), ("h", 5), ("g", 7)]
+    | .error _ => false) = true := by decide
+example : (match expandReqs (fun _ => true) [{ name := "sleep", cnt := 5 }, { name := "h" }] [] with
+    | .error .leadingSleep => true | _ => false) = true := by decide
+example : (match expandReqs (fun _ => true) [{ name := "h", cnt := 0 }, { name := "sleep", cnt := 5 }] [] with
+    | .error .leadingSleep => true | _ => false) = true := by decide
+example : (match expandReqs (fun _ => true) [{ name := "h", cnt := 2 }, { name := "g", cnt := 1048575 }] [] with
+    | .error .tooMany => true | _ => false) = true := by decide
+example : (match expandReqs (fun n => n == "h") [{ name := "h" }, { name := "nope" }] [] with
+    | .error (.unknown "nope") => true | _ => false) = true := by decide
+
+/-! ### round 6: scenario provider → guns -/
+
+/-- the number of shots the scenario provider serves when `asked` are asked for -/
+def servedShots (len passes limit asked : Nat) : Nat :=
+  match scenAvail len passes limit with | none => asked | some b => min asked b
+
+/-- **C20_scenario_end_to_end** (composition scenario provider → guns → server): for every configuration, every `passes` /
+`limit` of the scenario provider and every order `sched` in which guns ask for ammo: the provider serves exactly
+`servedShots` of them (all of them when nothing is configured, else `min asked (passes × len cut at limit)`), the k-th
+served ammo is number `k mod len` of the weighted list — which is the ammo `runSched`'s k-th shot fires — and the guns
+firing them produce exactly the stateless specification's trace (`C20_scenario_provider` + `C20_scenario_refines`; with
+`registry` applied the hypothesis on names is `C20_registry`). -/
+theorem C20_scenario_end_to_end (c : Cfg) (hd : namesDistinct c.calls = true) (passes limit : Nat) (sched : List Nat)
+    (tr : List (Nat × Outcome)) (hl : 0 < (ammoList c).length)
+    (h : expectedSched c (sched.take (servedShots (ammoList c).length passes limit sched.length)) 0 [] [] = some tr) :
+    (scenRun (ammoList c).length passes limit sched.length 0).length = servedShots (ammoList c).length passes limit sched.length ∧
+    (∀ k, k < servedShots (ammoList c).length passes limit sched.length →
+      (scenRun (ammoList c).length passes limit sched.length 0)[k]? = some (k % (ammoList c).length)) ∧
+    runSched .copy c (sched.take (servedShots (ammoList c).length passes limit sched.length)) 0 (initWorld c) [] = .inl (some tr) := by
+  have hp := C20_scenario_provider (ammoList c).length passes limit sched.length hl
+  have hs : scenRun (ammoList c).length passes limit sched.length 0 =
+      (List.range (servedShots (ammoList c).length passes limit sched.length)).map (· % (ammoList c).length) := by
+    rw [hp]; unfold servedShots; cases scenAvail (ammoList c).length passes limit <;> rfl
+  refine ⟨?_, ?_, C20_scenario_refines c hd _ tr h⟩
+  · rw [hs]; simp
+  · intro k hk
+    rw [hs]
+    simp [List.getElem?_map, List.getElem?_range hk]
+
+example : 0 < (ammoList exCfg).length ∧ servedShots (ammoList exCfg).length 0 2 3 = 2 ∧
+    (expectedSched exCfg ([0, 1, 0].take (servedShots (ammoList exCfg).length 0 2 3)) 0 [] []).isSome = true := by decide
 
 end Pandora.Props.C20
